@@ -150,6 +150,11 @@ func (c *c15Ctx) validate(n *provenance.ProofNode, ancestors map[string]bool, re
 					if n.Partial {
 						continue
 					}
+					if p.Fact.Hash() == ga.Hash() && p.Fact.Predicate == ga.Predicate {
+						// the explainer looked the literal up in a hash-keyed store, which answers with the other atom of
+						// equal hash (the stores' known conflation, F8)
+						return "", fmt.Sprintf("[hash-collision] premise %d of the node for %v is %v but the body literal under the bindings is %v (equal Atom.Hash())", pi, n.Fact, p.Fact, ga)
+					}
 					return "", fmt.Sprintf("premise %d of the node for %v is %v but the body literal under the bindings is %v", pi, n.Fact, p.Fact, ga)
 				}
 				if p.Kind == provenance.KindAbsence {
@@ -535,7 +540,11 @@ func c15Case(r *rt.Run, src string, edbText []string, deep bool) {
 					}
 					_, prob := c.validate(p, map[string]bool{}, false)
 					if prob != "" {
-						r.Violate("invalid-proof-"+modeName, fmt.Sprintf("goal %v: %s\n%s edb=%v", goal, prob, strings.TrimSpace(src), edbText), w2)
+						kind := "invalid-proof-" + modeName
+						if strings.HasPrefix(prob, "[hash-collision]") {
+							kind += "-hash-collision"
+						}
+						r.Violate(kind, fmt.Sprintf("goal %v: %s\n%s edb=%v", goal, prob, strings.TrimSpace(src), edbText), w2)
 						continue
 					}
 					if !anyPartial(p) {
